@@ -18,6 +18,7 @@ Tie to the source
 """
 import itertools
 import json
+import operator
 
 import core
 from core import clist, ctuple, copt, cbool
@@ -182,6 +183,14 @@ def diagnose_tree(ctx, classes):
 #       | ["first_last"] | ["get_point", t] | ["qd", a, b]
 #       | ["search", t]  (np.searchsorted(part._points, TimePoint(t)))  | ["cmp", a, b]  (the six rich comparisons of
 #         the time points at a and b)  | ["cached", s]  (int(part._quarter_map(s)): the cached interpolator)
+#       | ["qd_write", a, b]  (quarter_durations(a, b), then the caller overwrites the returned array)
+#       | ["map", 2*s, kind]  (quarter_duration_map on s handed over as int/float/numpy scalar/0-d/.../empty array/list)
+#       iter_all's last field: bounds as 0 int | 1 free TimePoint | 2 the part's own TimePoint | 3 a TimePoint kept from
+#       an earlier step (possibly removed since)
+# optional keys: "tkind" (integer kind of times / quarter values), "pid" (part id), "fresh" (judge every step against a
+# part freshly built from the current registrations; ask the last questions again at the end).
+# A replay is {"kind": "history", "history": ...} or {"kind": "history", "pair": {"parts": [h0, h1], "schedule": [0, 1, ...],
+# "lazy": bool}} -- two parts in one process, the schedule says which part the next operation goes to.
 
 
 class Runner:
@@ -196,9 +205,15 @@ class Runner:
         # the integer type the times (and quarter values) are handed over as: importers pass numpy integers
         import numpy as np
         tk = hist.get("tkind", "int")
-        conv = {"int": [int], "int64": [np.int64], "int32": [np.int32], "mixed": [int, np.int64, np.int32]}[tk]
-        self.T = lambda t: None if t is None else conv[t % len(conv)](t)
-        self.part = S.Part("P", quarter_duration=hist["q0"])
+        conv = {"int": [int], "int64": [np.int64], "int32": [np.int32], "mixed": [int, np.int64, np.int32],
+                "int8": [np.int8], "uint8": [np.uint8], "int16": [np.int16], "uint16": [np.uint16],
+                "mixedsmall": [np.int8, int, np.uint8, np.int64, np.int16, np.uint16, np.int32]}[tk]
+        # small non-negative values in the chosen integer kind; negative (rejected) or large values as Python int
+        self.T = lambda t: None if t is None else (conv[t % len(conv)](t) if 0 <= t <= 120 else int(t))
+        self.part = S.Part(hist.get("pid", "P"), quarter_duration=self.T(hist["q0"]))
+        self.fresh = bool(hist.get("fresh"))
+        self.held = {}       # time -> the FIRST TimePoint object ever seen at that time (possibly removed since)
+        self.nstep = 0
         self.objs = []
         for c in hist["objs"]:
             cls = classes[c]
@@ -379,6 +394,11 @@ class Runner:
                 bad.append("empty time point at %d" % tp.t)
             if tp.quarter != self.spec_qd(tp.t):
                 bad.append("point %d: quarter %r, in force is %r" % (tp.t, tp.quarter, self.spec_qd(tp.t)))
+            else:
+                try:
+                    operator.index(tp.quarter)
+                except TypeError:
+                    bad.append("point %d: quarter %r (%s) is not an integer" % (tp.t, tp.quarter, type(tp.quarter).__name__))
         for k, o in enumerate(self.objs):
             for j, side in enumerate(("start", "end")):
                 ref = getattr(o, side)
@@ -429,6 +449,9 @@ class Runner:
                 # there is one (`part.iter_all(cls, note.start, note.end)`: the usual call)
                 if as_tp == 2:
                     wrap = lambda t: None if t is None else ((p.get_point(t) if t >= 0 else None) or self.S.TimePoint(self.T(t)))
+                elif as_tp == 3:
+                    # a TimePoint the caller took from the part at an EARLIER step (it may have been removed since)
+                    wrap = lambda t: None if t is None else (self.held.get(t) or self.S.TimePoint(self.T(t)))
                 elif as_tp:
                     wrap = lambda t: None if t is None else self.S.TimePoint(self.T(t))
                 else:
@@ -501,6 +524,39 @@ class Runner:
                     tab = "entry at %d is %d but %d is in force" % (t, d, self.spec_qd(t))
                     break
             return got, ["qd", tab]
+        if k == "qd_write":
+            # the caller owns the returned array: whatever is written into it must not show anywhere later
+            _, a, b = q
+            arr = p.quarter_durations(self.T(a), self.T(b))
+            got = ["qd", [[int(r[0]), int(r[1])] for r in arr]]
+            tab = [[int(t), int(d)] for t, d in zip(p._quarter_times, p._quarter_durations)
+                   if (a is None or a <= t) and (b is None or t < b)]
+            if getattr(arr, "flags", None) is not None and arr.flags.writeable and arr.size:
+                arr[:, 1] = 77
+                arr[:, 0] += 3
+            return got, ["qd", tab]
+        if k == "map":
+            # quarter_duration_map "can take scalar values or lists/arrays of values": every accepted kind of argument
+            import numpy as np
+            _, s2, kind = q
+            s = s2 // 2 if s2 % 2 == 0 else s2 / 2.0
+            si = s2 // 2
+            arg, exp_shape, pts = {
+                "int": (si, (), [si]), "float": (float(s), (), [s]), "npint": (np.int16(si), (), [si]),
+                "npfloat": (np.float32(s), (), [s]), "0d": (np.array(si), (), [si]), "0dfloat": (np.array(float(s)), (), [s]),
+                "arr1": (np.array([si]), (1,), [si]), "arr1float": (np.array([float(s)]), (1,), [s]),
+                "list": ([0, si, si + 1], (3,), [0, si, si + 1]), "tuple": ((si, 0), (2,), [si, 0]),
+                "arr": (np.array([si + 2, si, 0], dtype=np.int32), (3,), [si + 2, si, 0]),
+                "arrfloat": (np.array([s, s + 0.5, 0.0]), (3,), [s, s + 0.5, 0.0]),
+                "empty": (np.array([], dtype=int), (0,), []), "emptyfloat": (np.array([], dtype=float), (0,), []),
+                "arr2d": (np.array([[si, 0], [1, si + 1]]), (2, 2), [si, 0, 1, si + 1]),
+            }[kind]
+            res = np.asarray(p.quarter_duration_map(arg))
+            vals = [float(v) for v in res.ravel()]
+            vals = [int(v) if v == int(v) else v for v in vals]
+            if exp_shape == ():
+                return ["val", vals[0] if res.shape == () and len(vals) == 1 else ["shape", list(res.shape)]], ["val", self.spec_qd(pts[0])]
+            return ["vals", list(res.shape), vals], ["vals", list(exp_shape), [self.spec_qd(x) for x in pts]]
         if k == "search":
             import numpy as np
             got = int(np.searchsorted(p._points, self.S.TimePoint(self.T(q[1]))))
@@ -610,7 +666,99 @@ class Runner:
             d2 = self.dump()
             if any(d2[k] != obs[k] for k in ("points", "qtab", "refs")):
                 bad.append("O2: a read-only query changed the part")
+        if self.fresh and not bad:
+            try:
+                bad += self.fresh_compare(st.get("queries", []), qres, obs)
+            except Exception as e:
+                bad.append("O5: a part freshly built from the current registrations could not be built/queried: %s: %s" % (type(e).__name__, e))
+        for tp in self.part._points:
+            try:
+                self.held.setdefault(int(tp.t), tp)
+            except Exception:
+                pass
+        self.nstep += 1
         return obs, bad
+
+    def fresh_compare(self, queries, qres, obs):
+        """History independence: everything observable depends on the CURRENT registrations only.  A second part is
+        built from scratch out of the specification state (new objects of the same classes, registered in another
+        order, by start and by end separately, the quarter changes in time order interleaved with the additions) and
+        asked the same questions in reverse order; the answers and the dumps must be equal."""
+        import random
+        rnd = random.Random(1000003 * self.nstep + len(self.objs))
+        fr = Runner.__new__(Runner)
+        fr.S, fr.classes, fr.cid, fr.T = self.S, self.classes, self.cid, self.T
+        fr.fresh, fr.held, fr.nstep = False, {}, 0
+        fr.part = self.S.Part(self.part.id, quarter_duration=self.qd[0][1])
+        fr.objs = []
+        for o in self.objs:
+            n = type(o).__new__(type(o))
+            self.S.TimedObject.__init__(n)
+            fr.objs.append(n)
+        fr.oid = {id(o): self.oid[id(self.objs[k])] for k, o in enumerate(fr.objs)}
+        fr.reg = [list(r) for r in self.reg]
+        fr.qd = list(self.qd)
+        fr.allowed_empty = set(self.allowed_empty)
+        acts = []
+        for k, (a, b) in enumerate(self.reg):
+            if a is not None and b is not None and rnd.random() < 0.5:
+                acts.append(("add", k, a, b))
+            else:
+                if a is not None:
+                    acts.append(("add", k, a, None))
+                if b is not None:
+                    acts.append(("add", k, None, b))
+        acts += [("gp", t) for t in sorted(self.allowed_empty)]
+        rnd.shuffle(acts)
+        sets = [("setq", t, v) for t, v in self.qd[1:]]
+        while acts or sets:
+            a = sets.pop(0) if sets and (not acts or rnd.random() < 0.4) else acts.pop()
+            if a[0] == "add":
+                kw = {}
+                if a[2] is not None:
+                    kw["start"] = a[2]
+                if a[3] is not None:
+                    kw["end"] = a[3]
+                fr.part.add(fr.objs[a[1]], **kw)
+            elif a[0] == "gp":
+                fr.part.get_or_add_point(a[1])
+            else:
+                fr.part.set_quarter_duration(a[1], a[2])
+        bad = []
+        d = fr.dump()
+        for key in ("points", "refs"):
+            if d[key] != obs[key]:
+                bad.append("O5: the part reached by this history differs from a part freshly built from the same registrations: %s %s, fresh %s"
+                           % (key, json.dumps(obs[key]), json.dumps(d[key])))
+        for q, got in reversed(list(zip(queries, qres))):
+            if q[0] in ("qd", "qd_write"):
+                continue    # the change TABLE may keep redundant entries of the history; its function is compared through the maps
+            try:
+                g2 = fr.query(q)[0]
+            except Exception as e:
+                g2 = ["error", type(e).__name__]
+            if g2 != got:
+                bad.append("O5: query %s returned %r after this history, %r on a part freshly built from the same registrations" % (self.show_query(q), got, g2))
+        return bad
+
+    def recheck(self, st):
+        """The part is looked at once more (after operations on ANOTHER part): invariant and the last step's queries."""
+        bad = []
+        try:
+            bad += ["O1: " + m for m in self.inv()]
+        except Exception as e:
+            bad.append("O1: state not inspectable: %s: %s" % (type(e).__name__, e))
+        for q in st.get("queries", []):
+            if q[0] == "qd_write":
+                q = ["qd"] + q[1:]
+            try:
+                got, exp = self.query(q)
+            except Exception as e:
+                bad.append("O2/O4: query %r raised %s: %s" % (q, type(e).__name__, e))
+                continue
+            if exp is not None and got != exp:
+                bad.append("O2: query %s returned %r, the registered objects give %r" % (self.show_query(q), got, exp))
+        return bad
 
 
 def run_history(hist, classes, cid, stop_on_bad=True, last_only=False):
@@ -628,6 +776,11 @@ def run_history(hist, classes, cid, stop_on_bad=True, last_only=False):
             obs_all.append(obs)
         if bad and stop_on_bad:
             return obs_all, i, bad, False
+    if hist.get("fresh") and hist["steps"] and not last_only:
+        # the same questions once more with no operation in between (the caller's copies have been written into)
+        bad = r.recheck(hist["steps"][-1])
+        if bad:
+            return obs_all, len(hist["steps"]) - 1, ["(asked again, nothing changed in between) " + m for m in bad], False
     return obs_all, None, [], False
 
 
@@ -951,6 +1104,175 @@ def gen_history(rng, classes, cid, nsteps=None, nq=4, shape=None):
     return hist
 
 
+# ----------------------------------------------------------------------------- state carried between calls
+# The history stream: the same questions before and after every edit (a memo that is not invalidated answers the
+# old question), the caller's copies written into, time points the caller kept, every integer kind for times and
+# quarter values, every argument kind of the quarter map, two parts in one process (interleaved / in both orders);
+# every answer is judged against the current registrations only (specification state and a freshly built part).
+
+EXT_KINDS = ["int", "int", "int64", "int32", "mixed", "int8", "uint8", "int16", "uint16", "mixedsmall", "mixedsmall"]
+BIG_Q = {1: 1, 2: 2, 3: 480, 4: 4, 6: 960, 12: 10080}      # realistic divisions; > 127 so a narrow integer kind cannot hold them
+MAP_KINDS = ["int", "float", "npint", "npfloat", "0d", "0dfloat", "arr1", "arr1float", "list", "tuple", "arr", "arrfloat",
+             "empty", "emptyfloat", "arr2d"]
+
+
+def sticky_probes(rng, hist, with_none):
+    """A fixed set of questions asked after EVERY operation of the history (in rotating order)."""
+    pool = hist["pool"]
+    tt = [None, None] + pool + [t + 1 for t in pool]
+    pr = []
+    c0 = pick_cls(rng, hist, False)
+    pr.append(["iter_all", None if with_none else c0, None, None, True, "starting", 0])
+    a, b = sorted(rng.sample(pool, 2)) if len(pool) >= 2 else (0, 5)
+    pr.append(["iter_all", pick_cls(rng, hist, False), a, b if rng.random() < 0.7 else None, rng.random() < 0.7,
+               rng.choice(["starting", "ending"]), rng.choice([2, 3, 3])])
+    pr.append(["iter_all", 0, rng.choice(tt), rng.choice(tt), True, rng.choice(["starting", "ending"]), rng.choice([0, 1, 3])])
+    pr.append([rng.choice(["iter_next", "iter_prev"]), rng.choice(pool), pick_cls(rng, hist, False), rng.random() < 0.5, True])
+    pr.append([rng.choice(["iter_next", "iter_prev"]), rng.choice(pool), 0, rng.random() < 0.5, True])
+    pr.append(["first_last"])
+    pr.append(["get_point", rng.choice(pool)])
+    pr.append(["qd", None, None])
+    pr.append(["qd_write", None, None] if rng.random() < 0.7 else ["qd_write", rng.choice(tt), rng.choice(tt)])
+    pr.append(["cached", rng.choice(pool)])
+    pr.append(["map", 2 * rng.choice(pool) + rng.choice([0, 1]), rng.choice(MAP_KINDS)])
+    pr.append(["search", rng.choice(pool)])
+    keep = pr[:1] + rng.sample(pr[1:], rng.randint(5, 8))
+    if ["qd", None, None] not in keep:
+        keep.append(["qd", None, None])
+    return keep
+
+
+def gen_history_h(rng, classes, cid, shape, nsteps=None):
+    h = gen_history(rng, classes, cid, nsteps=nsteps or rng.randint(6, 22), nq=2, shape=shape)
+    h["tkind"] = rng.choice(EXT_KINDS)
+    h["pid"] = rng.choice(["P", "P", "P", "P0", "P1"])
+    h["fresh"] = True
+    if rng.random() < 0.6:                 # the same history with realistic (large) quarter durations
+        h["q0"] = BIG_Q.get(h["q0"], h["q0"])
+        for st in h["steps"]:
+            if st["op"][0] == "setq":
+                st["op"][2] = BIG_Q.get(st["op"][2], st["op"][2])
+    with_none = len(h["steps"]) <= 10 and rng.random() < 0.3
+    pr = sticky_probes(rng, h, with_none)
+    h["probes"] = len(pr)
+    for i, st in enumerate(h["steps"]):
+        own = [q for q in st["queries"] if not (q[0] == "iter_all" and q[1] is None)]
+        for q in own:
+            if q[0] == "iter_all" and rng.random() < 0.3:
+                q[6] = 3
+        if rng.random() < 0.5:
+            own.append(["map", 2 * rng.choice(h["pool"]) + rng.choice([0, 1]), rng.choice(MAP_KINDS)])
+        k = i % len(pr)
+        st["queries"] = own + pr[k:] + pr[:k]
+        st["kind"] = "H:" + (st.get("kind") or st["op"][0])
+    return h
+
+
+def gen_pair(rng, classes, cid, shape):
+    hs = [gen_history_h(rng, classes, cid, shape, nsteps=rng.randint(4, 14)) for _ in range(2)]
+    if rng.random() < 0.6:
+        hs[1]["pid"] = hs[0]["pid"]       # two scores loaded in one process usually both call their part "P1"
+    na, nb = len(hs[0]["steps"]), len(hs[1]["steps"])
+    x = rng.random()
+    if x < 0.2:
+        sched = [0] * na + [1] * nb
+    elif x < 0.4:
+        sched = [1] * nb + [0] * na
+    else:
+        sched = [0] * na + [1] * nb
+        rng.shuffle(sched)
+    return {"parts": hs, "schedule": sched, "lazy": rng.random() < 0.4}
+
+
+def run_pair(pair, classes, cid, stop_on_bad=True):
+    """Two parts in one process.  -> (obs per part, (part, step, schedule position) of the first failure or None, messages, invalid)."""
+    hs, sched = pair["parts"], pair["schedule"]
+    runners = [None, None] if pair.get("lazy") else [Runner(h, classes, cid) for h in hs]
+    pos, obs = [0, 0], [[], []]
+    probes = [sorted(set(h.get("pool", [])) | {0, 1, 2, 5, 1000}) for h in hs]
+    first = None
+    allmsgs = []
+    for n, w in enumerate(sched):
+        if runners[w] is None:
+            runners[w] = Runner(hs[w], classes, cid)
+        r, st = runners[w], hs[w]["steps"][pos[w]]
+        if not r.valid(st["op"]):
+            return obs, None, ["part %d step %d: %r is not a valid argument here" % (w, pos[w], st["op"])], True
+        ob, bad = r.step(st, probes[w])
+        obs[w].append(ob)
+        pos[w] += 1
+        if bad:
+            if first is None:
+                first, allmsgs = (w, pos[w] - 1, n), bad
+            if stop_on_bad:
+                return obs, first, allmsgs, False
+    if first is None:
+        for w in (0, 1):
+            if runners[w] is not None and pos[w] > 0:
+                bad = runners[w].recheck(hs[w]["steps"][pos[w] - 1])
+                if bad:
+                    return obs, (w, pos[w] - 1, len(sched)), ["(looked at again after the last operation on the other part) " + m for m in bad], False
+    return obs, first, allmsgs, False
+
+
+def pair_of(pair, items):
+    hs = [dict(pair["parts"][w], steps=[st for ww, st in items if ww == w]) for w in (0, 1)]
+    return {"parts": hs, "schedule": [w for w, _ in items], "lazy": pair.get("lazy", False)}
+
+
+def pair_items(pair):
+    pos, items = [0, 0], []
+    for w in pair["schedule"]:
+        items.append((w, pair["parts"][w]["steps"][pos[w]]))
+        pos[w] += 1
+    return items
+
+
+def strip_hist(h):
+    h = dict(h)
+    h["steps"] = [{"op": s["op"], "queries": s.get("queries", [])} for s in h["steps"]]
+    for k in ("rel_classes", "joins", "branches"):
+        h.pop(k, None)
+    return h
+
+
+def report_pair_failure(ctx, pair, classes, cid, first, msgs):
+    tag = msgs[0].replace("(looked at again after the last operation on the other part) ", "")[:3]
+    items = pair_items(pair)[: first[2] + 1]
+
+    def fails(sub):
+        try:
+            _, f, m, invalid = run_pair(pair_of(pair, sub), classes, cid)
+        except Exception:
+            return False
+        return (not invalid) and f is not None and any(tag in x[:70] for x in m)
+
+    alone = None
+    try:
+        if fails(items):
+            items = core.ddmin(items, fails)
+            for it in list(items[:-1]):              # drop the queries that do not matter
+                trial = [(w, dict(st, queries=[])) if st is it[1] else (w, st) for w, st in items]
+                if fails(trial):
+                    items = trial
+        small = pair_of(pair, items)
+        obs, f2, m2, _ = run_pair(small, classes, cid)
+        if f2 is not None:
+            first, msgs = f2, m2
+        # does it need the other part at all?
+        w = first[0]
+        _, i1, m1, inv1 = run_history(small["parts"][w], classes, cid)
+        alone = (not inv1) and i1 is not None
+    except Exception:
+        small = pair_of(pair, items)
+    ops = [[w] + st["op"] for w, st in pair_items(small)]
+    ctx.violation("C01 fails with two parts in one process (operations as [part, op...]) after %s: %s%s" % (
+                      json.dumps(ops), "; ".join(msgs[:3]),
+                      "" if alone is None else (" [the failing part's own operations alone %s]" % ("fail too" if alone else "do NOT fail: state is carried over from the other part"))),
+                  {"kind": "history", "pair": {"parts": [strip_hist(h) for h in small["parts"]], "schedule": small["schedule"], "lazy": small["lazy"]},
+                   "failing_part": first[0], "failing_step": first[1], "messages": msgs[:6]})
+
+
 # ----------------------------------------------------------------------------- Coq terms
 
 
@@ -992,8 +1314,10 @@ def cquery(q):
         return "QFirstLast"
     if k == "get_point":
         return "QGetPoint %s" % cz(q[1])
-    if k == "qd":
+    if k in ("qd", "qd_write"):
         return "QQuarterDurations %s %s" % (copt(q[1], cz), copt(q[2], cz))
+    if k == "map":       # scalar arguments only (see cobs); floor(s) has the same duration in force (change times are integers)
+        return "QCachedMap %s" % cz(q[1] // 2)
     if k == "search":
         return "QSearch %s" % cz(q[1])
     if k == "cmp":
@@ -1026,9 +1350,13 @@ def cobs(hist, st, obs):
         pts.append("(%s, %s, %s, %s, %s, %s)" % (cz(t), cz(qq), copt(pv, cz), copt(nx, cz),
                                                clist([cpair_obj(o) for o in stt]), clist([cpair_obj(o) for o in en])))
     qs = []
-    for q, r in zip(st.get("queries", []), obs["qres"]):
+    for n, (q, r) in enumerate(zip(st.get("queries", []), obs["qres"])):
         if q[0] == "get_point" and q[1] < 0:
             continue  # rejected argument; nothing to compare
+        if hist.get("fresh") and n % 2 and q[0] not in ("cached", "map", "qd_write"):
+            continue  # history stream: the direct oracle judges every answer, the models every second one (parse time)
+        if q[0] == "map" and not (r[0] == "val" and isinstance(r[1], int)):
+            continue  # list / array arguments: judged by the direct oracle only
         qs.append("(%s, %s)" % (cquery(q), cqres(r)))
     return "mkObs %s %s %s %s %s" % (
         cz(obs["out"]), clist(pts), clist(["(%s, %s)" % (cz(a), cz(b)) for a, b in obs["qtab"]]),
@@ -1048,7 +1376,22 @@ def cfinal(hist, obs_last):
 
 
 IMPORTS = "From PV Require Import Lib.Base Gen.C01_ClassTree Model.C01 Model.C01_Idx Model.C01_Dict."
-MODELS = ["Model/C01.vo", "Model/C01_Idx.vo", "Model/C01_Dict.vo"]
+IMPORTS_EV = "From PV Require Import Lib.Base Gen.C01_ClassTree Model.C01 Model.C01_Idx Model.C01_Hist."
+MODELS = ["Model/C01.vo", "Model/C01_Idx.vo", "Model/C01_Dict.vo", "Model/C01_Hist.vo"]
+
+
+def cevents(hist, obs_all):
+    """The history as the event trace of Model/C01_Hist.v: operations interleaved with the questions whose answer
+    depends on the cached quarter map (`cached` -> EAskNew) or on the tables (`map` with a scalar -> EAskMap), and the
+    answers the real Part gave.  -> (Coq term, number of questions)."""
+    evs, ans = [], []
+    for st, ob in zip(hist["steps"], obs_all):
+        evs.append("EOp (%s)" % cop(hist, st["op"]))
+        for q, r in zip(st.get("queries", []), ob["qres"]):
+            if q[0] in ("cached", "map") and r[0] == "val" and isinstance(r[1], int):
+                evs.append("%s %s" % ("EAskNew" if q[0] == "cached" else "EAskMap", cz(q[1] if q[0] == "cached" else q[1] // 2)))
+                ans.append(cz(r[1]))
+    return "(%s, %s, %s)" % (cz(hist["q0"]), clist(evs), clist(ans)), len(ans)
 HISTORY_OK = "(fun c => history_ok c && history_ok_idx c && dhistory_ok c)"
 FINAL_OK = "(fun c => final_ok c && final_ok_idx c && dfinal_ok c)"
 FIRST_DIFFS = [("list-level model Model/C01.v", "first_diff objs (init q0) 0 h"),
@@ -1063,7 +1406,7 @@ def replay_obj(hist, upto, msgs, obs=None):
     h["steps"] = [{"op": s["op"], "queries": s.get("queries", [])} for s in hist["steps"][: upto + 1]]
     for k in ("rel_classes", "joins", "branches"):
         h.pop(k, None)
-    return {"history": h, "failing_step": upto, "messages": msgs[:6], "observed_after_failing_step": obs}
+    return {"kind": "history", "history": h, "failing_step": upto, "messages": msgs[:6], "observed_after_failing_step": obs}
 
 
 def shrink(hist, classes, cid, first_msg_tag):
@@ -1075,7 +1418,7 @@ def shrink(hist, classes, cid, first_msg_tag):
             _, i, msgs, invalid = run_history(h, classes, cid)
         except Exception:
             return False
-        return (not invalid) and i is not None and any(m.startswith(first_msg_tag) for m in msgs)
+        return (not invalid) and i is not None and any(first_msg_tag in m[:60] for m in msgs)
 
     steps = core.ddmin(hist["steps"], fails)
     h = dict(hist)
@@ -1088,10 +1431,22 @@ def shrink(hist, classes, cid, first_msg_tag):
     return h
 
 
-def report_oracle_failure(ctx, hist, classes, cid, i, msgs):
-    tag = msgs[0][:3]
+def report_oracle_failure(ctx, hist, classes, cid, i, msgs, prev_hist=None):
+    tag = msgs[0].replace("(asked again, nothing changed in between) ", "")[:3]
     h = dict(hist)
     h["steps"] = hist["steps"][: i + 1]
+    try:
+        # a failure that does not show when the history runs again on its own needs what an EARLIER history of this
+        # process left behind: replay it together with its predecessor
+        _, i0, _, inv0 = run_history(h, classes, cid)
+        if i0 is None and not inv0 and prev_hist is not None:
+            pair = {"parts": [prev_hist, h], "schedule": [0] * len(prev_hist["steps"]) + [1] * len(h["steps"]), "lazy": True}
+            _, first, pm, pinv = run_pair(pair, classes, cid)
+            if first is not None and not pinv:
+                report_pair_failure(ctx, pair, classes, cid, first, pm)
+                return
+    except Exception:
+        pass
     try:
         h = shrink(h, classes, cid, tag)
         obs_all, i2, msgs2, _ = run_history(h, classes, cid)
@@ -1338,7 +1693,13 @@ def run(ctx):
                 "cached quarter map, iter_all (bounds as int / free TimePoint / the part's own TimePoint) with cls in {None, "
                 "TimedObject, a class above both branches of a registered diamond, a one-branch class, ancestors, any} x "
                 "include_subclasses x mode x windows on/off points, iter_next/iter_prev x eq, first/last, get_point, "
-                "quarter_durations).  After every operation the real Part's observable state and the sampled query results are "
+                "quarter_durations).  History stream (state carried between calls): 36 (thorough 300) single parts and 14 (120) PAIRS of parts "
+                "run interleaved / one after the other in one process (same part id in 60%), each with a fixed probe set of 6-9 questions asked "
+                "after EVERY operation in rotating order, quarter_durations() results overwritten by the caller, iter_all bounds given as "
+                "TimePoints kept from an earlier step, times/quarter values as int8/uint8/int16/uint16/int32/int64/Python int with quarter "
+                "durations up to 10080, quarter_duration_map on int/float/numpy scalars, 0-d, one-element, empty, 2-d arrays, lists, tuples; "
+                "every step is also judged against a part freshly built (another order) from the current registrations, and the last "
+                "questions are asked again without an edit.  After every operation the real Part's observable state and the sampled query results are "
                 "compared with the three Coq models (list / index / registry level) and the invariant/specification is evaluated on the real Part (query results as "
                 "lists: every matching registered object exactly once, in time order).  distinct_nontrivial = distinct "
                 "histories containing >= 1 removal that deletes a time point or >= 1 replacement of an existing "
@@ -1356,7 +1717,7 @@ def run(ctx):
     shape = tree_shape(classes, cid)
     ctx.count("classes reflected", len(classes))
     ctx.count("classes reached along two inheritance paths", len(shape["twice"]))
-    ok, why = ctx.coq_props(expect_min=42)
+    ok, why = ctx.coq_props(expect_min=44)
     if not ok:
         # say which statement about the regenerated class tree fails (if it is one of those)
         named = diagnose_tree(ctx, classes)
@@ -1373,14 +1734,58 @@ def run(ctx):
         ctx.log("directed search over %d iter_subclasses anomalies: %d failing histories" % (len(problems), n))
 
     quick = ctx.tier == "quick"
-    n_hist = 160 if quick else 1000
-    hists = corpus_histories(classes, cid)
-    for _ in range(n_hist):
-        hists.append(gen_history(ctx.rng, classes, cid, shape=shape))
+    n_hist = 130 if quick else 1000
     terms, kept = [], []
     n_oracle_bad = 0
     reported = set()
+    # ---- state carried between calls: two parts in one process (interleaved / one after the other, both orders)
+    hists = []
+    n_pairs = 14 if quick else 120
+    for _ in range(n_pairs):
+        pair = gen_pair(ctx.rng, classes, cid, shape)
+        try:
+            obs2, first, msgs, invalid = run_pair(pair, classes, cid)
+        except Exception as e:
+            n_oracle_bad += 1
+            if "pair-runner" not in reported:
+                reported.add("pair-runner")
+                ctx.violation("a pair of histories could not be executed/inspected on real Parts: %s: %s" % (type(e).__name__, e),
+                              {"kind": "history", "pair": {"parts": [strip_hist(h) for h in pair["parts"]], "schedule": pair["schedule"], "lazy": pair["lazy"]},
+                               "messages": ["%s: %s" % (type(e).__name__, e)]})
+            continue
+        if invalid:
+            ctx.obligation("generator produces valid histories (pairs)", False, msgs)
+            continue
+        ctx.count("pair:" + ("same part id" if pair["parts"][0]["pid"] == pair["parts"][1]["pid"] else "different part ids")
+                  + (", second part built on first use" if pair["lazy"] else ""))
+        ctx.evaluations += len(obs2[0]) + len(obs2[1])
+        if first is not None:
+            n_oracle_bad += 1
+            tag = "pair:" + msgs[0].replace("(looked at again after the last operation on the other part) ", "")[:3]
+            if tag not in reported and len(reported) < 4:
+                reported.add(tag)
+                report_pair_failure(ctx, pair, classes, cid, first, msgs)
+            continue
+        for w in (0, 1):
+            h = pair["parts"][w]
+            if obs2[w]:
+                ctx.nontrivial(("pair", w, [s["op"] for s in h["steps"]], pair["schedule"]))
+                terms.append(chistory(h, obs2[w]))
+                kept.append((h, obs2[w]))
+                ctx.count("times handed over as:" + h.get("tkind", "int"))
+                for st in h["steps"]:
+                    ctx.count("op:" + (st.get("kind") or st["op"][0]))
+                    for q in st.get("queries", []):
+                        ctx.count("query:" + q[0] + (":" + q[2] if q[0] == "map" else ""))
+    # ---- single parts: hand-written corner cases, the history stream (same questions around every edit), the main stream
+    hists = corpus_histories(classes, cid)
+    for _ in range(36 if quick else 300):
+        hists.append(gen_history_h(ctx.rng, classes, cid, shape))
+    for _ in range(n_hist):
+        hists.append(gen_history(ctx.rng, classes, cid, shape=shape))
+    prev_h = None
     for h in hists:
+        this_prev, prev_h = prev_h, h
         try:
             obs_all, i, msgs, invalid = run_history(h, classes, cid)
         except Exception as e:  # the runner itself must not take the check down
@@ -1400,20 +1805,20 @@ def run(ctx):
         for s in h["steps"][: len(obs_all)]:
             ctx.count("op:" + (s.get("kind") or s["op"][0]))
             for q in s.get("queries", []):
-                ctx.count("query:" + q[0])
+                ctx.count("query:" + q[0] + (":" + q[2] if q[0] == "map" else ""))
                 if q[0] == "iter_all":
                     c = q[1]
                     ctx.count("iter_all cls:" + ("None" if c is None else "TimedObject" if c == 0 else
                                                  "above both branches" if c in h.get("joins", []) else
                                                  "one branch" if c in h.get("branches", []) else "other")
                               + (" +subclasses" if q[4] else ""))
-                    ctx.count("iter_all bounds:" + {0: "int", 1: "free TimePoint", 2: "the part's own TimePoint"}[int(q[6])])
+                    ctx.count("iter_all bounds:" + {0: "int", 1: "free TimePoint", 2: "the part's own TimePoint", 3: "a TimePoint kept from an earlier step"}[int(q[6])])
         if i is not None:
             n_oracle_bad += 1
-            tag = msgs[0][:3] + ("dup" if "more than once" in msgs[0] else "")
+            tag = msgs[0].replace("(asked again, nothing changed in between) ", "")[:3] + ("dup" if "more than once" in msgs[0] else "")
             if tag not in reported and len(reported) < 4:   # one replay per kind of failure
                 reported.add(tag)
-                report_oracle_failure(ctx, h, classes, cid, i, msgs)
+                report_oracle_failure(ctx, h, classes, cid, i, msgs, this_prev)
             continue
         # non-trivial: a removal deleted a point, or a quarter entry was replaced
         prev_n, prev_tab, nt = 0, [[0, h["q0"]]], False
@@ -1440,17 +1845,36 @@ def run(ctx):
         if not mok:
             model_ok = False
             ctx.obligation("correspondence: model evaluates", False, "Model/C01.v does not build over the regenerated class tree")
-    if model_ok:
+    if model_ok and terms:
         try:
+            ctx.log("case terms of %d histories: %d KB" % (len(terms), sum(len(t) for t in terms) // 1024))
             failing = ctx.coq_failing("hist", IMPORTS, "", terms, HISTORY_OK, shard=6 if quick else 20)
         except RuntimeError as e:
             model_ok = False
             ctx.obligation("correspondence: model evaluates", False, str(e)[-800:])
             if ok:
                 ctx.violation("the Coq model could not be evaluated on the generated histories: " + str(e)[-600:], {"error": str(e)[-1500:]}, no_input=True)
-    if model_ok:
+    if model_ok and (terms or not n_oracle_bad):
         ctx.obligation("correspondence: after every one of the %d operations of %d histories the model state, outputs and sampled "
                        "query results equal the real Part's" % (sum(len(o) for _, o in kept), len(terms)), not failing, failing[:5])
+    if model_ok and terms:
+        ev = [(cevents(h, o), h, o) for h, o in kept]
+        ev = [(t, h, o) for (t, n), h, o in ev if n >= 2]
+        try:
+            efail = ctx.coq_failing("events", IMPORTS_EV, "", [t for t, _, _ in ev], "events_ok", shard=40)
+        except RuntimeError as e:
+            efail = None
+            ctx.obligation("correspondence: event-trace model Model/C01_Hist.v evaluates", False, str(e)[-800:])
+        if efail is not None:
+            ctx.obligation("correspondence: along %d histories (operations interleaved with %d questions to the cached quarter map / the map "
+                           "built on demand) the answers of the real Part are those of the state machine of Model/C01_Hist.v (observe step_idx) "
+                           "and those computed from the current part only (expected)" % (len(ev), sum(t.count("EAsk") for t, _, _ in ev)),
+                           not efail, efail[:5])
+            for j in efail[:2]:
+                _, h, obs_all = ev[j]
+                ctx.violation("the answers of the cached quarter map / quarter_duration_map along %s are not those of the current state "
+                              "(event-trace model Model/C01_Hist.v)" % json.dumps([s_["op"] for s_ in h["steps"]]),
+                              replay_obj(h, len(h["steps"]) - 1, ["correspondence: event trace"], obs_all[-1]))
     for j in failing[:3]:
         h, obs_all = kept[j]
         import re
@@ -1496,6 +1920,33 @@ def replay(obj):
     core.setup_import_path()
     classes, cid = class_tree()
     r = obj.get("replay", obj)
+    if "pair" in r:
+        pair = r["pair"]
+        for w, h in enumerate(pair["parts"]):
+            print("part %d: id=%r q0=%s times as %s objects=%s" % (w, h.get("pid", "P"), h["q0"], h.get("tkind", "int"),
+                                                                  [classes[c].__name__ for c in h["objs"]]))
+        print("schedule (which part each operation goes to): %s; second part built %s" % (pair["schedule"], "on first use" if pair.get("lazy") else "up front"))
+        runners = [None, None] if pair.get("lazy") else [Runner(h, classes, cid) for h in pair["parts"]]
+        pos = [0, 0]
+        for w in pair["schedule"]:
+            if runners[w] is None:
+                runners[w] = Runner(pair["parts"][w], classes, cid)
+            st = pair["parts"][w]["steps"][pos[w]]
+            obs, bad = runners[w].step(st, sorted(set(pair["parts"][w].get("pool", [])) | {0, 1, 2, 5, 1000}))
+            print("part %d step %d: %s -> out=%s" % (w, pos[w], json.dumps(st["op"]), obs["out"]))
+            print("   points (t, quarter, prev, next, starting, ending): %s" % json.dumps(obs["points"]))
+            print("   quarter table: %s   start/end per object: %s" % (json.dumps(obs["qtab"]), json.dumps(obs["refs"])))
+            for q, res in zip(st.get("queries", []), obs["qres"]):
+                print("   query %s -> %s" % (json.dumps(q), json.dumps(res)))
+            for m in bad:
+                print("   ORACLE: " + m)
+            pos[w] += 1
+        for w in (0, 1):
+            if runners[w] is not None and pos[w] > 0:
+                for m in runners[w].recheck(pair["parts"][w]["steps"][pos[w] - 1]):
+                    print("   ORACLE (part %d looked at again at the end): %s" % (w, m))
+        print("recorded messages:", json.dumps(r.get("messages")))
+        return 0
     h = r["history"]
     print("history: q0=%s objects=%s" % (h["q0"], [classes[c].__name__ for c in h["objs"]]))
     obs_all, i, msgs, invalid = run_history(h, classes, cid, stop_on_bad=False)
